@@ -6,3 +6,5 @@ export CARGO_NET_OFFLINE=true
 cargo build --release --offline --workspace 2>&1 | tail -3
 # second profile (no debug assertions, wrapping arithmetic) for the pure-computation groups, see DESIGN 1.1
 cargo build --profile release-wrap --offline -p pv-crypto -p pv-math -p pv-codec -p pv-addr 2>&1 | tail -1
+# unoptimised worker for C43's long-empty-runs family
+cargo build --profile opt0 --offline -p pv-hardano 2>&1 | tail -1
